@@ -47,6 +47,7 @@ let handle (line : string) : string =
   | "X" :: _ -> "X lost=0 dup=0 phantom=0 futures_bad=0 after_destroy=0 over_max=0"
   | ["O"] -> "O threads=1 max=1"
   | "Y" :: _ -> "Y accepted_minus_ran=0 ran_later=0"
+  | "N" :: _ -> "N refused=0 lost=0"
   | "Z" :: _ -> "Z never_ran=0 futures_not_ready=0 started_after_return=0 left_queued=0"
   | _ -> "BADCASE"
 
